@@ -32,15 +32,53 @@ def dump_family_mir(root):
     os.makedirs(os.path.join(crate, "src"), exist_ok=True)
     t = open(os.path.join(VERIF, "family_crate", "Cargo.toml.tmpl")).read().replace("@REPO@", repo)
     open(os.path.join(crate, "Cargo.toml"), "w").write(t)
-    shutil.copy(os.path.join(VERIF, "family_crate", "src", "lib.rs"), os.path.join(crate, "src", "lib.rs"))
+    src = open(os.path.join(VERIF, "family_crate", "src", "lib.rs")).read()
     shutil.copy(os.path.join(repo, "Cargo.lock"), os.path.join(crate, "Cargo.lock"))
     t0 = time.time()
-    p = subprocess.run(["cargo", "+nightly", "rustc", "--offline", "--lib", "--target-dir", os.path.join(work, "target"), "--",
-                        "-Zunpretty=mir", "-C", "debug-assertions=off", "-C", "overflow-checks=on"], cwd=crate,
-                       stdout=subprocess.PIPE, stderr=subprocess.PIPE, text=True, env=dict(os.environ, CARGO_NET_OFFLINE="true"))
-    if p.returncode != 0 or "fn " not in p.stdout:
-        raise RuntimeError("family MIR dump failed (the family no longer compiles against this tree):\n" + p.stderr[-2500:])
-    return p.stdout, crate, time.time() - t0
+    dropped = []
+    for attempt in range(4):
+        open(os.path.join(crate, "src", "lib.rs"), "w").write(src)
+        p = subprocess.run(["cargo", "+nightly", "rustc", "--offline", "--lib", "--target-dir", os.path.join(work, "target"), "--",
+                            "-Zunpretty=mir", "-C", "debug-assertions=off", "-C", "overflow-checks=on"], cwd=crate,
+                           stdout=subprocess.PIPE, stderr=subprocess.PIPE, text=True, env=dict(os.environ, CARGO_NET_OFFLINE="true"))
+        if p.returncode == 0 and "fn " in p.stdout:
+            DROPPED_TRAITS[:] = dropped
+            return p.stdout, crate, time.time() - t0
+        # a trait of the family that no longer compiles against this tree is taken out (and reported: the unit is then at most
+        # inconclusive for it); the rest of the family is still analysed
+        bad = traits_at_error_lines(src, p.stderr)
+        if not bad:
+            break
+        for name in bad:
+            src = re.sub(rf"(?s)//@trait-begin {name}\n.*?//@trait-end {name}\n", "", src)
+            dropped.append(name)
+    raise RuntimeError("family MIR dump failed (the family no longer compiles against this tree):\n" + p.stderr[-2500:])
+
+
+DROPPED_TRAITS = []
+
+
+def traits_at_error_lines(src, err):
+    lines = []
+    ls = err.splitlines()
+    for i, l in enumerate(ls):
+        if l.startswith("error"):
+            for j in range(i + 1, min(i + 6, len(ls))):
+                m = re.match(r"\s*--> src/lib\.rs:(\d+)", ls[j])
+                if m:
+                    lines.append(int(m.group(1)))
+                    break
+    out = []
+    cur = None
+    for n, l in enumerate(src.split("\n"), 1):
+        m = re.match(r"//@trait-begin (\w+)", l)
+        if m:
+            cur = m.group(1)
+        if re.match(r"//@trait-end", l):
+            cur = None
+        if n in lines and cur and cur not in out:
+            out.append(cur)
+    return out
 
 
 def parse_family(src):
@@ -125,6 +163,8 @@ def unit_generated_forwarding(eng_unused, tier, prop, root=None):
     fam = parse_family(open(os.path.join(crate, "src", "lib.rs")).read())
     u = Unit(eng, "generated-forwarding", ["every `impl <Trait> for Unimock` method the macro generates for family_crate/src/lib.rs"],
              "trait-shape family: receivers {&self, &mut self, self, Rc<Self>, Arc<Self>, Pin<&mut Self>} x arities 0..6 x parameter kinds {owned, &T, &mut T, &'a mut T, &str, &[T], impl Trait, trait generic} x {default body} x {unmock_with: path, path(params), _}; every evaluation outcome")
+    for name in DROPPED_TRAITS:
+        u.errors.append(f"family trait {name} no longer compiles against this tree (not analysed)")
     hs = []
 
     def add(rx, h):
